@@ -1,9 +1,64 @@
-(* C04 — default score is Lucene BM25 over the index's own statistics (theorems are added as they close) *)
-From Coq Require Import ZArith List.
-From SA Require Import Score.BM25.
-Import ListNotations. Open Scope Z_scope.
-(* bit-exactness witness against the real kernel (same inputs as harness smoke test) *)
+(* C04 — default score is Lucene BM25 over the index's own statistics.
+   Statement-only file.  Model: Score/BM25.v (binary32 kernel, bit-exact with the C), Score/Score.v
+   (statistics handed to the similarity); real-number spec: Score/BM25_Real.v. *)
+From Coq Require Import ZArith List Reals.
+From Flocq Require Import Core IEEE754.BinarySingleNaN IEEE754.Binary IEEE754.Bits.
+From SA Require Import Score.BM25 Score.BM25_Real Score.BM25_Proofs.
+Import ListNotations.
+
+(* documents with tf = 0 score exactly 0 — for ALL parameters (k1 rounding to 0, b rounding to 1, NaN idf ...) *)
+Theorem C04_zero_tf_scores_zero : forall tfs dls total n idf_bits k1_bits b_bits i,
+  nth_error tfs i = Some 0%Z -> (i < length dls)%nat ->
+  nth_error (score_bits tfs dls total n idf_bits k1_bits b_bits) i = Some 0%Z.
+Proof. exact score_zero_pattern. Qed.
+Print Assumptions C04_zero_tf_scores_zero.
+
+(* all-empty corpus (avg = 0): all zeros *)
+Theorem C04_avg_zero : forall tfs dls avg idf k1 b, is_zero32 avg = true ->
+  bm25_similarity tfs dls avg idf k1 b = map (fun _ => B754_zero 24 128 false) tfs.
+Proof. exact bm25_similarity_avg_zero. Qed.
+
+(* every score is finite: integer tf and lengths up to 2^18, avg >= 2^-10, any finite idf, 0 <= k1 <= 128, 0 <= b <= 1 *)
+Theorem C04_scores_finite : forall tfs dls avg idf k1 b,
+  Forall (fun n => 0 <= n <= 262144)%Z tfs -> Forall (fun m => 0 <= m <= 262144)%Z dls ->
+  is_finite 24 128 avg = true -> (bpow radix2 (-10) <= B2R 24 128 avg)%R ->
+  is_finite 24 128 idf = true ->
+  is_finite 24 128 k1 = true -> (0 <= B2R 24 128 k1 <= bpow radix2 7)%R ->
+  is_finite 24 128 b = true -> (0 <= B2R 24 128 b <= 1)%R ->
+  Forall (fun x => is_finite 24 128 x = true) (bm25_kernel (map f32_of_Z tfs) (map f32_of_Z dls) avg idf k1 b).
+Proof. exact bm25_kernel_all_finite. Qed.
+Print Assumptions C04_scores_finite.
+
+(* the binary32 kernel is within relative error 2^-17 (< 1e-5) of the real-number formula
+   idf*tf/(tf + k1*(1 - b + b*len/avg)) on an explicit box (PARTIAL: the property's "all k1 > 0, 0 <= b < 1"
+   cannot hold at a fixed tolerance; tiny positive lengths and b outside [1/16, 15/16] are not covered) *)
+Theorem C04_accuracy_partial : forall tf dl avg idf k1 b,
+  is_finite 24 128 tf = true -> (1 <= B2R 24 128 tf <= 1024)%R ->
+  is_finite 24 128 dl = true -> (B2R 24 128 dl = 0 \/ 1 <= B2R 24 128 dl <= 4096)%R ->
+  is_finite 24 128 avg = true -> (1 <= B2R 24 128 avg <= 4096)%R ->
+  is_finite 24 128 idf = true -> (/ 1024 <= B2R 24 128 idf <= 32)%R ->
+  is_finite 24 128 k1 = true -> (/ 16 <= B2R 24 128 k1 <= 4)%R ->
+  is_finite 24 128 b = true -> (/ 16 <= B2R 24 128 b <= 15 / 16)%R ->
+  let exact := bm25_R (B2R 24 128 idf) (B2R 24 128 tf) (B2R 24 128 dl) (B2R 24 128 avg) (B2R 24 128 k1) (B2R 24 128 b) in
+  (Rabs (B2R 24 128 (bm25_one tf dl avg idf k1 b (one_minus b)) - exact) <= bpow radix2 (-17) * Rabs exact)%R.
+Proof. exact bm25_accuracy_2pm17. Qed.
+Print Assumptions C04_accuracy_partial.
+
+(* real-number facts of the formula *)
+Theorem C04_formula_zero : forall idf len avg k1 b, bm25_R idf 0 len avg k1 b = 0%R.
+Proof. exact bm25_R_zero. Qed.
+Theorem C04_denominator_positive : forall tf len avg k1 b,
+  (0 < tf -> 0 < k1 -> 0 <= b < 1 -> 0 <= len -> 0 < avg -> 0 < tf + k1 * (1 - b + b * len / avg))%R.
+Proof. exact bm25_R_denominator_pos. Qed.
+Theorem C04_legacy_is_k1_plus_1_times_modern : forall idf tf len avg k1 b,
+  legacy_R idf tf len avg k1 b = ((k1 + 1) * bm25_R idf tf len avg k1 b)%R.
+Proof. exact legacy_is_k1_plus_1_times_modern. Qed.
+Theorem C04_idf_positive : forall N df, (0 <= df <= N -> 0 < idf_term N df)%R.
+Proof. exact idf_term_pos. Qed.
+Print Assumptions C04_idf_positive.
+
+(* bit-exactness witness against the real kernel *)
 Example C04_kernel_bits_example :
-  score_bits [2;1;3;0] [5;3;4;2] 14 4 4604418534313441775 4608083138725491507 4604930618986332160
-  = [1053160071; 1051415468; 1056306910; 0].
+  score_bits [2;1;3;0]%Z [5;3;4;2]%Z 14 4 4604418534313441775 4608083138725491507 4604930618986332160
+  = [1053160071; 1051415468; 1056306910; 0]%Z.
 Proof. vm_compute. reflexivity. Qed.
